@@ -892,6 +892,7 @@ func (rn *smRunner) run(b smBehaviour) {
 		r    uint32
 	}
 	signs := map[signKey]int{}
+	released := map[signKey]string{} // what was released to the mirror per (kind, height, round)
 	decides := map[[2]uint64]int{}
 	var lastEntered, wantResume [2]uint64
 	haveEntered, haveResume := false, false
@@ -1289,6 +1290,16 @@ func (rn *smRunner) run(b smBehaviour) {
 		// ---- predicates on the real outputs
 		for _, o := range outs {
 			switch o["t"] {
+			case "action":
+				// C02: whatever happens to the signer and the stores, two DIFFERENT proposals / votes for one round are never
+				// released (re-sending the recorded one after a restart is the same content and is fine)
+				key := signKey{fmt.Sprint(o["kind"]), toU64(o["h"]), uint32(toU64(o["r"]))}
+				tgt := fmt.Sprint(o["target"])
+				if prev, ok := released[key]; ok && prev != tgt {
+					rn.viol(b.ID, i, "C02", "ReleasedOnce", s.Op, key.kind,
+						fmt.Sprintf("a second, different %s for %d/%d was released to the mirror: first %s, now %s", key.kind, key.h, key.r, prev, tgt))
+				}
+				released[key] = tgt
 			case "write":
 				// C07: the finalization store records the validator set the driver returned for that height
 				if o["store"] == "fin" {
